@@ -3,6 +3,7 @@ CONSTANTS
   MaxLines = 3
 SPECIFICATION Spec
 INVARIANT TypeOK
+INVARIANT StateIsParse
 INVARIANT Ordered2
 INVARIANT Nested
 INVARIANT QuoteLaw
